@@ -143,6 +143,7 @@ func TestC07Parsers(t *testing.T) {
 				}
 				pc := func() any { return PipeCase{Parser: px.Case(), DecBuf: decBuf} }
 				beginCase("C07", "pipe-"+kind, pc)
+				defer endCase() // also when rapid abandons the case half-way (fuzzing: input used up)
 				genParserHistory(t, px, pipeOpts())
 				var r pipeResult
 				if !px.dead {
